@@ -158,14 +158,25 @@ func (r *Run) report(results []*FuncResult, d *Discharger) int {
 					r.undecided = append(r.undecided, msg)
 					continue
 				}
-				inLedger, _ := r.inLedger(fr.Name, o.Name)
+				inLedger, oldHash := r.inLedger(fr.Name, o.Name)
+				if !inLedger && oldHash != "" && oldHash != fr.SSAHash {
+					// a new obligation (new program point) of a function that verified on the unchanged tree and
+					// whose code has changed since: a counter-model under the function's own contract counts
+					inLedger = true
+				}
+				if o.Case != "" && !o.Canary {
+					// the variant of an obligation inside a carved-out input region is judged like the obligation itself
+					if in2, _ := r.inLedger(fr.Name, strings.TrimSuffix(o.Name, "@"+o.Case)); in2 {
+						inLedger = true
+					}
+				}
 				path, confirmed := r.replay(o, fr)
 				switch {
 				case confirmed:
 					fmt.Printf("VIOLATION property=%s replay=%s\n", r.Prop, path)
 					r.violations = append(r.violations, o.Name)
 					exit = 1
-				case inLedger || isCanary:
+				case inLedger || o.Canary:
 					fmt.Printf("VIOLATION property=%s replay=%s no-failing-input-found\n", r.Prop, path)
 					r.violations = append(r.violations, o.Name)
 					exit = 1
